@@ -1,0 +1,41 @@
+#pragma once
+// Verification hooks. Everything in here is compiled only with
+// -DSQFVM_RUNTIME_VERIF; without the define this header is empty and
+// no call site references it.
+#ifdef SQFVM_RUNTIME_VERIF
+#include <chrono>
+#include <cstddef>
+
+namespace sqf::runtime
+{
+    class runtime;
+    class instruction;
+}
+namespace sqf::verif
+{
+    struct hooks
+    {
+        // Virtual clock. nullptr -> std::chrono::system_clock::now()
+        std::chrono::system_clock::time_point(*now)(void* ud) = nullptr;
+        // Scheduler slice length. nullptr -> 150
+        size_t(*slice)(void* ud) = nullptr;
+        // Called in execute_do immediately before (phase 0) and after (phase 1)
+        // an instruction is executed.
+        void(*instruction)(void* ud, sqf::runtime::runtime& rt, const sqf::runtime::instruction* inst, int phase) = nullptr;
+        // Called in runtime::execute(start) when a context is picked, before it
+        // receives (or is denied, because it still sleeps) its slice.
+        void(*slice_begin)(void* ud, sqf::runtime::runtime& rt, size_t context_index) = nullptr;
+        void* ud = nullptr;
+    };
+    inline thread_local hooks g_hooks;
+
+    inline std::chrono::system_clock::time_point now()
+    {
+        return g_hooks.now ? g_hooks.now(g_hooks.ud) : std::chrono::system_clock::now();
+    }
+    inline size_t slice()
+    {
+        return g_hooks.slice ? g_hooks.slice(g_hooks.ud) : 150;
+    }
+}
+#endif // SQFVM_RUNTIME_VERIF
